@@ -1947,6 +1947,13 @@ FILES_MERKLE = [("Merkle", "packages/contract-utils/src/crypto/hashable.rs", ["c
                 ("Merkle", "packages/contract-utils/src/crypto/merkle.rs", ["verify", "verify_with_index"])]
 TYMAPS_MERKLE = {"packages/contract-utils/src/crypto/hashable.rs": {"H": "Bytes32", "S": "Hasher!", "Output": "Bytes32"},
                  "packages/contract-utils/src/crypto/merkle.rs": {"H": "Hasher!"}}
+STORE_BL = {"BlockTok": dict(STORE_FUNGIBLE["Fungible"], **{"Blocked": (["Address"], "()")})}
+FILES_BL = [("BlockTok", "packages/tokens/src/fungible/storage.rs",
+             ["total_supply", "balance", "allowance_data", "allowance", "set_allowance", "spend_allowance", "update",
+              "approve", "transfer", "transfer_from"]),
+            ("BlockTok", "packages/tokens/src/fungible/extensions/burnable/storage.rs", ["burn", "burn_from"]),
+            ("BlockTok", "packages/tokens/src/fungible/extensions/blocklist/storage.rs",
+             ["blocked", "block_user", "unblock_user", "transfer", "transfer_from", "approve", "burn", "burn_from"])]
 STORE_UP = {"Upgradeable": {"Migrating": ([], "bool")}}
 FILES_UP = [("Upgradeable", "packages/contract-utils/src/upgradeable/storage.rs",
              ["enable_migration", "can_complete_migration", "complete_migration", "ensure_can_complete_migration"])]
@@ -2501,7 +2508,12 @@ def main():
                 sys.stdout.write(txt)
         sys.exit(rc)
     try:
-        if "--upgradeable" in sys.argv:
+        if "--blocklist" in sys.argv:
+            txt = translate(repo, FILES_BL, reads={"BlockTok": READS_FUNGIBLE["Fungible"]}, structs=STRUCTS_FUNGIBLE, store=STORE_BL,
+                            impl_types={"Base": "BlockTok", "BlockList": ("BlockTok", "bl_")},
+                            fn_prefix={"packages/tokens/src/fungible/extensions/blocklist/storage.rs": "bl_"},
+                            rename_types={"AllowanceData": "BlockTok.AllowanceData", "AllowanceKey": "BlockTok.AllowanceKey"})
+        elif "--upgradeable" in sys.argv:
             txt = translate(repo, FILES_UP, reads={"Upgradeable": {}}, store=STORE_UP)
         elif "--allowlist" in sys.argv:
             txt = translate(repo, FILES_AL, reads=READS_AL, structs=STRUCTS_FUNGIBLE, store=STORE_AL,
